@@ -171,3 +171,11 @@ def search(ctx, boost=1, focus=()):
         ctx.oracle_case("wellformed", p, msgs_, key=classify("wellformed", p, msgs_) if msgs_ else None,
                         nontrivial=border or p["frame_kind"] in ("const", "zero", "hot"))
         ctx.count("frame_" + p["frame_kind"])
+    # "crop sizes >= 2": one very large search window per run (a single crop is larger than the library's default buffer limit)
+    c_big = int(rng.integers(182, 200))
+    p = {"seed": int(rng.integers(1 << 30)), "pattern": {"kind": "circular", "radius": float(rng.integers(8, 30)), "search": float(c_big)},
+         "shape": [int(rng.integers(20, 50)), int(rng.integers(20, 50))], "frame_kind": "poisson",
+         "peaks": [[int(rng.integers(0, 20)), int(rng.integers(0, 20))], [-5, 30]], "b": 1, "upsample": False, "backend": "pixel"}
+    msgs_ = run_case("wellformed", p)
+    ctx.oracle_case("wellformed", p, msgs_, nontrivial=True)
+    ctx.count("large_crop")
